@@ -54,16 +54,6 @@ def decodeDirPack (f : Bytes) : Outcome DirPack := do
 def DirPack.firstIndexFailure (d : DirPack) : Option (Outcome IndexInfo) :=
   d.indexOutcomes.find? (fun r => match r with | .ok _ => false | _ => true)
 
-/-- `DirectoryPack::get_index_from_name`: the index tails are read in table order until one carries
-    the name; a tail that does not read aborts the scan with its error -/
-def lookupIndexByName : List (Outcome IndexInfo) → Bytes → Outcome (Option IndexInfo)
-  | [], _ => .ok none
-  | (.ok i) :: rest, name => if i.name == name then .ok (some i) else lookupIndexByName rest name
-  | (.err k) :: _, _ => .err k
-  | (.panic s) :: _, _ => .panic s
-  | .hang :: _, _ => .hang
-  | .fault :: _, _ => .fault
-
 def dirDumpLine (d : DirPack) : String :=
   let getVS : Nat → Outcome (ValueStoreTail × Bytes) := fun i =>
     match d.vstores[i]? with
